@@ -98,11 +98,26 @@ class JournalFileBackend(BaseJournalBackend):
                     del self._log_number_offset[log_number + 1]
             return logs
 
+    def _truncate_incomplete_log(self) -> None:
+        # A writer that died in the middle of `append_logs` leaves a record without the
+        # trailing line separator. Drop it so that it cannot swallow the next record.
+        with open(self._file_path, "rb+") as f:
+            end = f.seek(0, os.SEEK_END)
+            pos = end
+            while pos > 0:
+                f.seek(pos - 1)
+                if f.read(1) == b"\n":
+                    break
+                pos -= 1
+            if pos != end:
+                f.truncate(pos)
+
     def append_logs(self, logs: list[dict[str, Any]]) -> None:
         with get_lock_file(self._lock):
             what_to_write = (
                 "\n".join([json.dumps(log, separators=(",", ":")) for log in logs]) + "\n"
             )
+            self._truncate_incomplete_log()
             with open(self._file_path, "ab") as f:
                 f.write(what_to_write.encode("utf-8"))
                 f.flush()
